@@ -82,6 +82,14 @@ class Ctx:
         self.known_hits = {}
         self.unreproduced = []
         self.notes = []
+        # replays of earlier runs of this property are stale now
+        import glob
+
+        for old in glob.glob(os.path.join(REPLAY_DIR, prop + "-*.json")):
+            try:
+                os.remove(old)
+            except OSError:
+                pass
 
     def elapsed(self):
         return time.time() - self.t0
